@@ -287,6 +287,10 @@ func run(toks []string) string {
 			middleware.TraceIDFunc(func() string { return "T" }), middleware.SpanIDFunc(func() string { return "S" }),
 			middleware.SamplingPercent(pct),
 		}
+		if (len(hT)+pct)%2 == 0 {
+			// a sample size without a maximum sampling rate: the percentage still decides (the adaptive sampler is not chosen)
+			opts = append(opts, middleware.SampleSize(50))
+		}
 		if toks[5] == "1" {
 			opts = append(opts, middleware.DiscardFromTrace(regexp.MustCompile(`^/health|^/svc/health`)))
 		} else {
@@ -424,6 +428,13 @@ func outgoing(variant string, ctx context.Context) (string, string) {
 	case "http":
 		d := &captureDoer{}
 		req, _ := http.NewRequestWithContext(ctx, "GET", "http://next/health", nil)
+		// a gateway that copied the headers of ITS inbound request onto the outbound one: the traced client states the
+		// current trace and span all the same
+		// (only when the current request is traced: an untraced hop leaves the request alone)
+		if ctx.Value(middleware.TraceIDKey) != nil {
+			req.Header.Set(httpmw.TraceIDHeader, "stale-trace")
+			req.Header.Set(httpmw.ParentSpanIDHeader, "stale-span")
+		}
 		_, _ = httpmw.WrapDoer(d).Do(req)
 		return d.req.Header.Get(httpmw.TraceIDHeader), d.req.Header.Get(httpmw.ParentSpanIDHeader)
 	case "grpcu":
